@@ -1,8 +1,8 @@
 //@ assume: same abstract types as C06/extending (backends with ghost discard/sync counters, the real `&mut` borrows, arbitrary closure); ChainStore::clone / batch abstract
 //@ assume: T5: generic `PMMRHandle<BlockHeader>` => the abstract handle; lifetimes on Batch dropped; log macros removed. No statement of the function is rewritten. Obligations: postconditions over ghost operation logs of the backends (`ops`: 1 = discard, 2 = sync) plus the stronger assertion spliced before the final `res` (optional `before?` splice) relative to a ghost snapshot taken after the closure ran.
-//@ assume: decided here: txhashset::extending_readonly (used for validation, tx pool checks, root/merkle-proof computation on a scratch extension) ALWAYS discards all four MMR backends, never syncs one, and leaves sizes and bitmap accumulator untouched -- whatever the closure did and whatever it returned
-//@ assumed_items: 15
-//@ fns: txhashset::extending_readonly
+//@ assume: decided here: txhashset::extending_readonly (used for validation, tx pool checks, root/merkle-proof computation on a scratch extension) ALWAYS discards all four MMR backends, never syncs one, and leaves sizes and bitmap accumulator untouched -- whatever the closure did and whatever it returned; txhashset::header_extending_readonly (header-only validation, set_prev_root_only) likewise always discards the header backend and never commits its batch
+//@ assumed_items: 21
+//@ fns: txhashset::extending_readonly, txhashset::header_extending_readonly
 #[verifier::external_body]
 #[derive(Clone, Copy)]
 pub struct Tip { _p: u8 }
@@ -21,6 +21,20 @@ impl PMMRBackend {
     pub fn sync(&mut self) -> (r: Result<(), Error>) ensures final(self).syncs@ == old(self).syncs@ + 1, final(self).discards@ == old(self).discards@, final(self).ops@ == old(self).ops@.push(2), r matches Err(e) ==> e is Store { unimplemented!() }
 }
 pub struct PMMRHandle { pub backend: PMMRBackend, pub size: u64 }
+#[verifier::external_body]
+pub struct Hash { _p: u8 }
+#[verifier::external_body]
+pub struct BlockHeader { _p: u8 }
+impl PMMRHandle {
+    #[verifier::external_body]
+    pub fn head_hash(&self) -> (r: Result<Hash, Error>) { unimplemented!() }
+}
+impl Tip {
+    #[verifier::external_body]
+    pub fn from_header(h: &BlockHeader) -> (r: Tip) { unimplemented!() }
+    #[verifier::external_body]
+    pub fn default() -> (r: Tip) { unimplemented!() }
+}
 pub struct TxHashSet { pub output_pmmr_h: PMMRHandle, pub rproof_pmmr_h: PMMRHandle, pub kernel_pmmr_h: PMMRHandle, pub bitmap_accumulator: BitmapAccumulator, pub commit_index: ChainStore }
 #[verifier::external_body]
 pub struct ChainStore { _p: u8 }
@@ -36,6 +50,8 @@ impl Batch {
     pub fn head(&self) -> (r: Result<Tip, Error>) { unimplemented!() }
     #[verifier::external_body]
     pub fn header_head(&self) -> (r: Result<Tip, Error>) { unimplemented!() }
+    #[verifier::external_body]
+    pub fn get_block_header(&self, h: &Hash) -> (r: Result<BlockHeader, Error>) { unimplemented!() }
     #[verifier::external_body]
     pub fn child(&mut self) -> (r: Result<Batch, Error>) ensures final(self).commits@ == old(self).commits@ { unimplemented!() }
     #[verifier::external_body]
@@ -93,5 +109,16 @@ pub open spec fn discarded_since(now: TxHashSet, mid: TxHashSet) -> bool {
 //@+    // whatever the closure did and returned: nothing is synced, every backend that was touched ends in a discard, sizes and accumulator as before
 //@+    trees_rolled_back(*final(trees), *old(trees)) && untouched_or_discarded(*final(handle), *old(handle)),
 //@+    r.is_ok() ==> ends_with(final(handle).backend, 1) && ends_with(final(trees).output_pmmr_h.backend, 1) && ends_with(final(trees).rproof_pmmr_h.backend, 1) && ends_with(final(trees).kernel_pmmr_h.backend, 1),
+//@ end
+//@ extract chain/src/txhashset/txhashset.rs :: fn header_extending_readonly
+//@   strip_logs
+//@   sigrewrite `handle: &mut PMMRHandle<BlockHeader>,` => `handle: &mut PMMRHandle,`
+//@   sigrewrite `F: FnOnce(&mut HeaderExtension<'_>, &mut Batch<'_>) -> Result<T, Error>,` => `F: FnOnce(&mut HeaderExtension<'_>, &mut Batch) -> Result<T, Error>,`
+//@   requires:
+//@+    forall|e: &mut HeaderExtension, b: &mut Batch| inner.requires((e, b)),
+//@   ensures:
+//@+    // whatever the closure did and returned: the header backend is never synced here, its size is as before, and if it was touched at all the LAST thing done to it is a discard
+//@+    untouched_or_discarded(*final(handle), *old(handle)),
+//@+    r.is_ok() ==> ends_with(final(handle).backend, 1),
 //@ end
 //@ canary extending_readonly: r.is_err()
